@@ -19,13 +19,15 @@ def _collect(prop, spec, stream_name, tier, sub=0, budget_mult=1, cases=None):
     env_extra = getattr(sm, "ENV", None)
     obs = C.run_impl(stream_name, cases, env_extra=env_extra)
     lines = []
+    to_model_errors = []
     for c, o in zip(cases, obs):
         try:
             lines.append(sm.to_model(c, o) if hasattr(sm, "to_model") else None)
-        except Exception as e:  # an observation the harness cannot even translate
+        except Exception as e:  # an observation the harness cannot even translate: never drop the case silently
             lines.append(None)
+            to_model_errors.append({"stream": stream_name, "case": c, "impl": {"to_model_error": repr(e)[:300]}, "model": None})
     mouts = C.run_model(lines) if any(l is not None for l in lines) else [None] * len(lines)
-    disagreements = []
+    disagreements = list(to_model_errors)
     hits = []
     compared = 0
     for i, (c, o, l, m) in enumerate(zip(cases, obs, lines, mouts)):
